@@ -9,6 +9,7 @@ use std::sync::atomic::{AtomicUsize, Ordering};
 use std::sync::Mutex;
 
 static NEXT_ID: AtomicUsize = AtomicUsize::new(1);
+static CMPS: AtomicUsize = AtomicUsize::new(0);
 static INJECTED: std::sync::atomic::AtomicBool = std::sync::atomic::AtomicBool::new(false);
 static DROPS: Mutex<Vec<u32>> = Mutex::new(Vec::new());
 static HASHES: Mutex<Vec<(u8, u64)>> = Mutex::new(Vec::new());
@@ -52,6 +53,7 @@ impl Drop for Key {
 }
 impl PartialEq for Key {
     fn eq(&self, o: &Key) -> bool {
+        CMPS.fetch_add(1, Ordering::Relaxed);
         self.k == o.k
     }
 }
@@ -63,6 +65,7 @@ impl PartialOrd for Key {
 }
 impl Ord for Key {
     fn cmp(&self, o: &Key) -> std::cmp::Ordering {
+        CMPS.fetch_add(1, Ordering::Relaxed);
         self.k.cmp(&o.k)
     }
 }
@@ -247,6 +250,25 @@ fn shape_check(m: &HashMap<Key, Val, TableHasher>, model: &BTreeMap<u8, (u32, u6
                 fail(format!("{}: tree bin in a table of {} bins", when, n));
             }
             tree_check(&line, i, n, when);
+            // C06: looking up any key, present or absent, costs about 4*log2(n+1) key comparisons at most
+            let nodes = line.matches('[').count();
+            let bound = 4 * ((nodes + 1) as f64).log2().ceil() as usize + 2;
+            let g = m.guard();
+            let mut probes: Vec<u8> = model.keys().cloned().collect();
+            probes.extend([250u8, 251, 252, 253]);
+            for pk in probes {
+                let p = Key::new(pk, 9998);
+                let h = { use std::hash::{BuildHasher, Hash, Hasher}; let mut hh = TableHasher.build_hasher(); p.hash(&mut hh); hh.finish() };
+                if (h as usize) & (n - 1) != i {
+                    continue;
+                }
+                let c0 = CMPS.load(Ordering::Relaxed);
+                let _ = m.get(&p, &g);
+                let c = CMPS.load(Ordering::Relaxed) - c0;
+                if c > bound {
+                    fail(format!("{}: get({}) ({}) in the tree bin {} of {} entries cost {} key comparisons, bound 4*ceil(log2(n+1))+2 = {}", when, pk, if model.contains_key(&pk) { "present" } else { "absent" }, i, nodes, c, bound));
+                }
+            }
         }
     }
     if m.len() != model.len() {
@@ -476,27 +498,43 @@ fn main() {
                         } else if use_ref { mr.retain_force(f) } else { m.retain_force(f, &g) }
                         for r in &removed { model.remove(r); }
                     }
-                    "retain_replace" | "retain_force_replace" => {
+                    "retain_replace" | "retain_force_replace" | "retain_replace_grow" | "retain_force_replace_grow" => {
                         let mut first: Option<u8> = None;
+                        let mut first_val = 0u64;
+                        let grow = op.ends_with("_grow");
+                        let mut grown: Vec<(u8, u32, u64)> = vec![];
                         let f = |kk: &Key, vv: &Val| {
                             if first.is_none() {
                                 first = Some(kk.k);
                                 vnext += 1;
+                                first_val = vnext;
                                 let old = m.insert(Key::new(kk.k, 4242), Val::new(vnext), &g).map(|v| v.v);
                                 if old != Some(vv.v) {
                                     fail(format!("{}: re-entrant insert returned {:?}", when, old));
+                                }
+                                if grow {
+                                    // the writer also grows the map: the table is swapped between inspection and removal
+                                    for j in 0..6u8 {
+                                        vnext += 1;
+                                        m.insert(Key::new(100 + j, 4300 + j as u32), Val::new(vnext), &g);
+                                        grown.push((100 + j, 4300 + j as u32, vnext));
+                                    }
                                 }
                                 return false;
                             }
                             true
                         };
-                        if op == "retain_replace" {
+                        if op.starts_with("retain_replace") {
                             if use_ref { mr.retain(f) } else { m.retain(f, &g) }
                         } else if use_ref { mr.retain_force(f) } else { m.retain_force(f, &g) }
+                        for (k2, t2, v2) in grown {
+                            model.insert(k2, (t2, v2));
+                        }
+                        let vnext_first = first_val;
                         if let Some(k0) = first {
-                            if op == "retain_replace" {
+                            if op.starts_with("retain_replace") {
                                 let t = model.get(&k0).map(|e| e.0).unwrap();
-                                model.insert(k0, (t, vnext));
+                                model.insert(k0, (t, vnext_first));
                             } else {
                                 model.remove(&k0);
                             }
